@@ -242,7 +242,7 @@ def check_lengths(ctx):
 def check_distances(ctx):
     fs = ctx.fn(RDS)
     its = ctx.entry(RDS)
-    kind_errors(ctx, 'R4', its, lambda f: f.qualname == RDS)
+    kind_errors(ctx, 'R4', its, lambda f: f.qualname == RDS, strict=True)
     for e in uniq_events(its, {'pbc_distance'}, lambda f: f.qualname == RDS):
         a, b = e['a'], e['b']
         ga, gb = all_geos(a), all_geos(b)
